@@ -109,6 +109,45 @@ pub fn fz_envelope(data: &[u8]) {
     let _ = air::to_human_readable_data(data.to_vec());
 }
 
+/// C01 + C02 (+ the acceptance side of C14): the bytes select 1..3 operations of the tamper catalog
+/// (8 bytes each); the producer of the fixed history's data applies them, repairs the stores, re-signs
+/// its own set, and the result is delivered to the honest receiver.  Coverage guidance drives the
+/// catalog towards the interpreter's deeper paths instead of dying in validation.
+pub fn fz_structured(data: &[u8]) {
+    let (particle, peer, prev, cur) = fixed_history();
+    let attacker = crate::gen::peers_for(3)[0].clone();
+    let ops: Vec<[u16; 4]> = data
+        .chunks_exact(8)
+        .take(3)
+        .map(|c| [u16::from_le_bytes([c[0], c[1]]), u16::from_le_bytes([c[2], c[3]]), u16::from_le_bytes([c[4], c[5]]), u16::from_le_bytes([c[6], c[7]])])
+        .collect();
+    if ops.is_empty() {
+        return;
+    }
+    let (bytes, _rep) = match crate::tamper::tamper(cur, &attacker, &particle.particle_id, &ops, true) {
+        Some(x) => x,
+        None => return,
+    };
+    let o = run(particle, peer, prev, &bytes, &Default::default(), &Limits::default());
+    if is_prev_returned(o.ret_code) {
+        if o.data != *prev {
+            panic!("VERIF-ORACLE C02 prev-not-returned: code {}", o.ret_code);
+        }
+    } else if is_new_data(o.ret_code) {
+        match decode_data(&o.data) {
+            Ok(d) => {
+                if let Err(e) = crate::model::data::closure_check(&d.data) {
+                    panic!("VERIF-ORACLE C14 victim-data-not-content-consistent: {}", e);
+                }
+            }
+            Err(_) => panic!("VERIF-ORACLE C02 undecodable-new-data: code {}", o.ret_code),
+        }
+    } else {
+        panic!("VERIF-ORACLE C02 code-outside-ranges: {}", o.ret_code);
+    }
+    let _ = air::to_human_readable_data(bytes);
+}
+
 /// C27: request / result payload decoding is total; what decodes re-encodes to the same value
 pub fn fz_codec(data: &[u8]) {
     use air_interpreter_interface::{CallRequestsRepr, CallResults, CallResultsRepr, SerializedCallRequests, SerializedCallResults};
@@ -143,6 +182,7 @@ pub fn run_target(name: &str, data: &[u8]) -> bool {
         "fz_json" => fz_json(data),
         "fz_envelope" => fz_envelope(data),
         "fz_codec" => fz_codec(data),
+        "fz_structured" => fz_structured(data),
         _ => return false,
     }
     true
